@@ -85,6 +85,9 @@ pub fn run_case(case: &Case) -> Outcome {
     o.label(["bisection", "brent", "itp"][solver as usize]);
     o.label(fname(kind));
     o.label(if s < 0.0 { "decreasing" } else { "increasing" });
+    if case.tol >= 0.1 * sigma {
+        o.label("nonlinear-at-tolerance-scale");
+    }
     let tol = if case.invalid == 1 { -case.tol } else { case.tol };
     let width = hi - lo;
     let nbis = ((width / case.tol).log2().ceil().max(0.0)) as usize;
@@ -216,12 +219,15 @@ fn strategy(_t: Tier) -> BoxedStrategy<Case> {
     (
         (0u8..3, 0u8..NFUNC, gen::sign(), root, gen::logu(-1.0, 1.0), (gen::fl(0.5, 2.0), gen::fl(0.5, 2.0))),
         (width(), width(), any::<bool>(), gen::logu(-12.0, -2.0)),
-        (gen::logu(-2.0, 1.0), gen::fl(1.01, 2.6), gen::fl(0.0, 3.0), any::<bool>(), invalid),
+        (gen::logu(-2.0, 1.0), gen::fl(1.01, 2.6), gen::fl(0.0, 3.0), any::<bool>(), invalid, prop_oneof![3 => Just(1.0), 1 => Just(1e-2), 1 => Just(1e-3)]),
     )
-        .prop_map(|((solver, func, s, r, sigma, p), (w1, w2, reversed, tol), (k1, k2, n0, big_cap, invalid))| {
+        .prop_map(|((solver, func, s, r, sigma, p), (w1, w2, reversed, tol), (k1, k2, n0, big_cap, invalid, steep))| {
             // oscillating / several-root functions: make brackets that span several roots common
             let multi = (func % NFUNC == 5 || func % NFUNC == 10) && big_cap;
             let (sigma, w1, w2) = if multi { (sigma.min(1.0 / sigma) * 0.8, 0.4 + 3.0 * w1.min(1.0), 0.4 + 3.0 * w2.min(1.0)) } else { (sigma, w1, w2) };
+            // steep class: the same catalogue on a 100x / 1000x finer scale (strongly non-linear on the scale of a loose
+            // tolerance); brackets at most 30 scale lengths wide so that the values stay finite
+            let (sigma, w1, w2) = if steep < 1.0 { (sigma * steep, w1.min(30.0 * sigma * steep), w2.min(30.0 * sigma * steep)) } else { (sigma, w1, w2) };
             Case {
             solver,
             func,
@@ -256,8 +262,8 @@ pub fn run(opts: &Opts) -> i32 {
         }
     }
     spec.cases = opts.tier.pick(1_200_000, 30_000_000);
-    spec.essential = vec![("decreasing", 0.3), ("bisection", 0.2), ("brent", 0.2), ("itp", 0.2), ("multi-root", 0.01), ("same-sign", 0.005), ("invalid-params", 0.03), ("bisection-reversed", 0.05)];
-    spec.rule = "generated: solver x catalogue function s*g((x-r)/sigma) (linear, cubic, u(1+u^2), expm1, atan, sin, u^5/7/9, tanh, three-root cubic, expm1*(2+cos 3u)) with s=+-1, root r in [-10,10] incl. 0 and dyadic values, sigma 10^[-1,1], bracket [r-w1, r+w2] with w 10^[-3,0.5] or dyadic, either order, tol 10^[-12,-2], ITP k1 10^[-2,1]/(b-a), k2 in (1.01,2.6), n0 in [0,3]; invalid class: negative tolerance, k1<0, k2 in {0.5,1,1+phi,3}, n0<0, same-sign ends (arises for sin/three-root brackets), reversed bisection bracket. Oracle: recorded abscissae inside the bracket, evaluation budget, Ok => inside bracket and within tol (relative to max(1,|x|) for bisection) of a sign-change root of the catalogue function (or |f|<tol for Brent), Ok required on valid input, Err on invalid. Non-trivial = decreasing, or bracket not containing 0, or several roots in the bracket, or >= 10 evaluations. Distinct = distinct case JSON.".into();
+    spec.essential = vec![("decreasing", 0.3), ("bisection", 0.2), ("brent", 0.2), ("itp", 0.2), ("multi-root", 0.01), ("same-sign", 0.005), ("invalid-params", 0.03), ("bisection-reversed", 0.05), ("nonlinear-at-tolerance-scale", 0.03)];
+    spec.rule = "generated: solver x catalogue function s*g((x-r)/sigma) (linear, cubic, u(1+u^2), expm1, atan, sin, u^5/7/9, tanh, three-root cubic, expm1*(2+cos 3u)) with s=+-1, root r in [-10,10] incl. 0 and dyadic values, sigma 10^[-1,1] (times 1e-2 or 1e-3 in two fifths of the cases: functions that are strongly non-linear on the scale of a loose tolerance), bracket [r-w1, r+w2] with w 10^[-3,0.5] or dyadic, either order, tol 10^[-12,-2], ITP k1 10^[-2,1]/(b-a), k2 in (1.01,2.6), n0 in [0,3]; invalid class: negative tolerance, k1<0, k2 in {0.5,1,1+phi,3}, n0<0, same-sign ends (arises for sin/three-root brackets), reversed bisection bracket. Oracle: recorded abscissae inside the bracket, evaluation budget, Ok => inside bracket and within tol (relative to max(1,|x|) for bisection) of a sign-change root of the catalogue function (or |f|<tol for Brent), Ok required on valid input, Err on invalid. Non-trivial = decreasing, or bracket not containing 0, or several roots in the bracket, or >= 10 evaluations. Distinct = distinct case JSON.".into();
     spec.assumptions = vec!["catalogue root sets are analytic; sin roots k*pi rounded to f64 (covered by the 16 eps allowance)".into()];
     spec.max_discard_frac = 0.05;
     run_spec(spec, opts)
